@@ -731,3 +731,5 @@ func (g *Gen) RunShape(peer string, sh Shape) {
 		w.Del(peer, &SessReq{Hdr: ds[0].UPSeid})
 	}
 }
+
+func newRand(seed int64) *rand.Rand { return rand.New(rand.NewSource(seed)) }
